@@ -570,3 +570,35 @@ Proof.
     vm_compute in Hr'. discriminate.
   - inversion H as [|l k Hr Hk|]; subst. vm_compute in Hr. discriminate.
 Qed.
+
+(* ------------------------------------------------------------------ tactile batching covers every taxel *)
+Lemma ceil_batching_covers :
+  forall n t : Z, (0 < n)%Z -> (0 < t)%Z ->
+    let b := ceil_div n t in let k := ceil_div n b in
+    (0 < b /\ n <= k * b /\ (k - 1) * b < n /\ 1 <= k <= t)%Z /\ tactile_cover_ok n b k n = true.
+Proof.
+  intros n t Hn Ht b k. unfold ceil_div in *.
+  assert (Hb : (0 < b)%Z).
+  { subst b. apply Z.div_str_pos. lia. }
+  assert (Hb1 : (t * b <= n + t - 1 < t * b + t)%Z).
+  { subst b. pose proof (Z.div_mod (n + t - 1) t ltac:(lia)). pose proof (Z.mod_pos_bound (n + t - 1) t Ht). lia. }
+  assert (Hk1 : (b * k <= n + b - 1 < b * k + b)%Z).
+  { subst k. pose proof (Z.div_mod (n + b - 1) b ltac:(lia)). pose proof (Z.mod_pos_bound (n + b - 1) b Hb). lia. }
+  assert (F : (n <= k * b /\ (k - 1) * b < n /\ 1 <= k <= t)%Z) by nia.
+  split; [tauto|].
+  unfold tactile_cover_ok. rewrite !andb_true_iff. repeat split.
+  - apply Z.ltb_lt. exact Hb.
+  - apply Z.leb_le. lia.
+  - apply Z.ltb_lt. lia.
+  - apply Z.eqb_refl.
+Qed.
+
+(* the truncating variant (batch = n / t, t tasks) drops the last n mod t taxels *)
+Lemma floor_batching_drops :
+  forall n t : Z, (0 < t)%Z -> (n mod t <> 0)%Z -> (t * (n / t) < n)%Z /\ tactile_cover_ok n (n / t) t (t * (n / t)) = false.
+Proof.
+  intros n t Ht Hm. pose proof (Z.div_mod n t ltac:(lia)). pose proof (Z.mod_pos_bound n t Ht).
+  assert (L : (t * (n / t) < n)%Z) by lia. split; [exact L|].
+  unfold tactile_cover_ok. replace (n <=? t * (n / t))%Z with false by (symmetry; apply Z.leb_gt; lia).
+  rewrite andb_false_r. reflexivity.
+Qed.
